@@ -861,6 +861,8 @@ class StationaryMonitor(Base):
             "imag_psi": float(np.max(np.abs(psi.imag))),
         }
         self.dts.append(float(res.dt))
+        if ctx.get("stage") != "Thermalizing":
+            self.recorded_dts = getattr(self, "recorded_dts", []) + [float(res.dt)]  # (steps of the unrecorded first stage are not reported: C05)
         stable = res.dt <= 0.9 * self.dt_star
         bad = dev > 1e-12 or any(v != 0 for v in other.values())
         if bad and self.first_dev is None:
